@@ -47,7 +47,7 @@ class Report:
         self.assumptions: list[str] = []
         self.violations: list[dict] = []
         self.known_hits: dict[str, int] = {}
-        self.max_violations_written = 8
+        self.max_violations_written = 60
         self._findings = [
             f for f in load_findings() if f.get("property") == prop
         ]
